@@ -89,25 +89,3 @@ func VerifH_C07_Abandoned() {
 	verifAssert(errA != nil, "C07.abandoned_request_reports_error")
 	verifEvent("A-returned")
 }
-
-// c07Answer: the acknowledgement a conforming broker sends for a request packet.
-func c07Answer(d refPacket) []byte {
-	switch d.typ {
-	case 3:
-		if (d.flags>>1)&3 == 1 {
-			return refEncodeAck(0x40, d.id)
-		} else if (d.flags>>1)&3 == 2 {
-			return refEncodeAck(0x50, d.id)
-		}
-	case 6:
-		return refEncodeAck(0x70, d.id)
-	case 8:
-		resp := []byte{0x90, byte(2 + len(d.filters)), byte(d.id >> 8), byte(d.id)}
-		return append(resp, d.qoss...)
-	case 10:
-		return refEncodeAck(0xB0, d.id)
-	case 12:
-		return []byte{0xD0, 0}
-	}
-	return nil
-}
